@@ -46,7 +46,7 @@ ASSUMPTIONS = [
 
 def plan(tier):
     if tier == "thorough":
-        return {"runs": 12000, "chunk": 40, "wall_budget": 3300, "resample": 20, "hang_s": 900}
+        return {"runs": 150000, "chunk": 200, "wall_budget": 3300, "resample": 20, "hang_s": 900}
     return {"runs": 4000, "chunk": 40, "wall_budget": 900, "resample": 10}
 
 
